@@ -283,6 +283,7 @@ def run_job(job: dict) -> dict:
         ls = tuple(rec["labels"])
         if rec["oracle_evals"]:
             evaluated += 1
+        if rec["oracle_evals"] or ls:
             if ls not in label_sets and len(samples) < 6:
                 samples.append(
                     {"labels": rec["labels"], "notes": _jsonable(rec["notes"])}
